@@ -11,12 +11,16 @@ EXTRA_TARGETS = ["Model/Canon.vo", "Model/Decode.vo", "Model/Sweep.vo"]
 
 TRUSTED = [
     "Coq 8.16.1 kernel and vm_compute (no native_compute); full .vo build via coq_makefile",
-    "axioms: none (every theorem of Properties/C16.v is 'Closed under the global context')",
+    "axioms: none declared; every theorem of Properties/C16.v outside its last section is 'Closed under the global context'; the float theorems "
+    "of the last section (Flocq's real-number semantics of IEEE 754) use the standard library's real-number axioms named there",
+    "Flocq 4.1.0 (Core, IEEE754.Binary, IEEE754.Bits) as the specification of IEEE 754 binary32 / binary64 and of round-to-nearest-even",
     "hand-written model coq/Model/Varint.v, Scalar.v tied to /repo by executable correspondence (this harness): "
     "model expressions are evaluated by vm_compute inside Coq on the same inputs the implementation ran",
     "translator harness/gen_tables.py (reflection of _pack_fmt and the type tables into coq/gen/Tables.v)",
     "Python side: harness generators, canonicalisation of exceptions to error kinds, Fletcher checksum for exhaustive ranges",
-    "float/double packing is sampled against struct and google.protobuf only (modelled as bit patterns, not verified)",
+    "float/double: the model's conversions (Model/Float.v d2f / f2d) are PROVED to be the IEEE 754 round-to-nearest-even narrowing / exact "
+    "widening (C16_d2f_correctly_rounded, C16_f2d_exact ...); that struct.pack / unpack on this platform (C's (float)x, IEEE 754 hardware) "
+    "compute them is sampled by the correspondence (ties, subnormals, carries, overflow boundary, random) and against google.protobuf",
     "oracles: CPython 3.12 struct/io, google.protobuf 7.x (upb) for byte identity of single-field messages",
 ]
 ASSUMPTIONS = [
@@ -123,14 +127,35 @@ def run(ctx):
                 res(lambda: bp.Message._postprocess_single(None, wt, FM(1, t), "f", bs), cz), (f"unpack {t}", bs.hex()))
             ctx.seen_nontrivial(("unpack", t, bs))
 
+    def bits(x):
+        return struct.unpack("<Q", struct.pack("<d", x))[0]
+
     # float / double packing and unpacking at the primitive level (bit patterns; -0.0, NaN, inf, subnormals, float32 rounding)
     fvals = [0.0, -0.0, 1.0, -1.5, 0.1, 1e300, 5e-324, float("inf"), float("-inf"), float("nan"), 3.4028234663852886e38,
              3.4028235677973366e38, 1e39, -1e39, 2.0 ** -149, 2.0 ** -150, 1.5 * 2.0 ** -149, 2.0 ** -126, 16777217.0, 1e-50]
     fvals += [struct.unpack("<d", struct.pack("<Q", rng.getrandbits(64)))[0] for _ in range(150 if not ctx.thorough else 3000)]
     fvals += [struct.unpack("<f", struct.pack("<I", rng.getrandbits(32)))[0] for _ in range(150 if not ctx.thorough else 3000)]
+    # float32 rounding cases the theorems C16_d2f_correctly_rounded / C16_f2d_exact speak about (the tie of the model to struct stays
+    # sampled): doubles lying between two adjacent binary32 numbers - exactly half way (ties to even), one binary64 ulp either side,
+    # random - in the normal and the subnormal binary32 range, carries into the next binade, and the overflow boundary, both signs
+    import math
+    for _ in range(60 if not ctx.thorough else 1500):
+        w = rng.getrandbits(32)
+        if (w >> 23) & 255 == 255:
+            continue
+        d = bits(struct.unpack("<f", struct.pack("<I", w))[0])
+        if (w >> 23) & 255 != 0:                      # normal binary32: the low 29 fraction bits of the double are the discarded ones
+            for low in (1 << 28, (1 << 28) - 1, (1 << 28) + 1, rng.getrandbits(29)):
+                fvals.append(struct.unpack("<d", struct.pack("<Q", d + low))[0])
+        k = w & 0x7FFFFF                              # subnormal binary32 range: (k + 1/2) * 2^-149 and its binary64 neighbours
+        t = math.ldexp(k + 0.5, -149) * (-1 if w >> 31 else 1)
+        fvals += [t, math.nextafter(t, 0.0), math.nextafter(t, math.copysign(math.inf, t))]
+    for e in (-126, -1, 0, 100, 127):                # carry: 1.ffffff8p+e and neighbours round up into the next binade (127: overflow)
+        t = math.ldexp(2.0 - 2.0 ** -24, e)
+        fvals += [t, -t, math.nextafter(t, 0.0), math.nextafter(t, math.inf), math.ldexp(2.0 - 2.0 ** -23, e)]
+    fvals += [math.ldexp(1.0, -150), math.nextafter(math.ldexp(1.0, -150), 1.0), math.nextafter(math.ldexp(1.0, -150), 0.0),
+              -math.ldexp(1.0, -150), math.ldexp(1.0, -1022), 2.5e-320, -2.5e-320, math.ldexp(1.0, 128), math.nextafter(math.ldexp(1.0, 128), 0.0)]
 
-    def bits(x):
-        return struct.unpack("<Q", struct.pack("<d", x))[0]
     for v in fvals:
         for t, ct in (("double", "TDouble"), ("float", "TFloat")):
             add(f"cv_bytes_res (pack_value {ct} (PFloat ({bits(v)})))", res_any(lambda: bp._preprocess_single(t, "", v), cb), (f"pack {t}", repr(v)))
